@@ -163,6 +163,28 @@ def skeleton_cases(tier: str, k: int = 0, nshards: int = 1):
                 for si, snip in enumerate(snippets):
                     for at, cand in insertion_sources(src, snip):
                         yield cls, f"{cls}#{si}@{slabel}+{at}", cand
+    # two insertions: first a terminator (return / break / continue) anywhere, making everything behind it in that suite dead
+    # code - including whole compound statements with their own bodies and else-clauses - then the unsupported statement anywhere
+    dead_plan = [(1, [c for c in REPRESENTATIVE if c in classes])]
+    if tier != "quick":
+        dead_plan.append((2, ["Import"]))
+    done2 = set()
+    for level, clss in dead_plan:
+        for slabel, src in skeleton_sources(level, "marked"):
+            if slabel in done2:
+                continue
+            done2.add(slabel)
+            if len(done2) % nshards != k:
+                continue
+            for term in ("return c(0)", "break", "continue"):
+                for at1, src1 in insertion_sources(src, term):
+                    try:
+                        compile(src1, "<c11>", "exec")        # break / continue outside a loop
+                    except SyntaxError:
+                        continue
+                    for cls in clss:
+                        for at2, cand in insertion_sources(src1, SNIPPETS[cls]):
+                            yield cls, f"{cls}#0@{slabel}+{term.split()[0]}@{at1}+{at2}", cand
     if tier != "quick":
         for j, (slabel, src) in enumerate(chain_sources(3, "marked")):
             if j % nshards != k:
